@@ -326,6 +326,23 @@ pub fn hyphen_configs() -> Vec<Conv> {
         p.trailing_var_arg = true;
         c.args.push(p);
     }));
+    // value language at the grammar level: possible values with aliases, with and without ignore_case
+    push("values:possible-values-aliases", {
+        let mut c = CmdSpec::new("prog");
+        c.args.push(ArgSpec::flag("a", Some('a'), Some("alpha")));
+        let pv = || Vp::Pv(vec![
+            PvSpec { name: "fast".into(), aliases: vec!["quick".into()], ..Default::default() },
+            PvSpec { name: "slow".into(), ..Default::default() },
+        ]);
+        let mut o = ArgSpec::opt("o", Some('o'), Some("opt"));
+        o.parser = pv();
+        o.ignore_case = true;
+        c.args.push(o);
+        let mut m = ArgSpec::opt("m", Some('m'), Some("mode"));
+        m.parser = pv();
+        c.args.push(m);
+        c
+    });
     // settings made on the root only, documented to reach every descendant; used two levels down
     push("nested:inherited-settings", {
         let mut c = CmdSpec::new("prog");
@@ -386,6 +403,13 @@ pub fn hyphen_configs() -> Vec<Conv> {
 /// tokens for the `nested:` family (the two steps down are given as a fixed prefix by the checkers)
 pub fn nested_alphabet() -> Vec<Vec<u8>> {
     ["v", "a,b", "--", "-v", "--verb", "--verbose", "--opt=1", "--op", "2", "le", "leaf", "-z", "--zu", "--opt=3"].iter().map(|s| s.as_bytes().to_vec()).collect()
+}
+
+pub fn values_alphabet() -> Vec<Vec<u8>> {
+    ["--opt=fast", "--opt=FAST", "--opt=quick", "--opt=QUICK", "--opt=Quick", "--opt=slow", "--opt=bogus", "--opt=", "-o", "QUICK", "quick", "-oQuick", "--mode=quick", "--mode=QUICK", "--mode=fast", "-m", "-a"]
+        .iter()
+        .map(|s| s.as_bytes().to_vec())
+        .collect()
 }
 
 pub fn hyphen_alphabet() -> Vec<Vec<u8>> {
